@@ -1,6 +1,7 @@
 # property -> units, unit -> engine.  (DESIGN.md section 2.1)
 UNITS = {
     "health": dict(engine="verus", serves=["C20"]),
+    "authz": dict(engine="verus", serves=["C02", "C11"]),
     "authorizer": dict(engine="verus", serves=["C03", "C11", "C01"]),
 }
 
@@ -29,6 +30,15 @@ PROPERTIES["C03"] = dict(
     level_note="Trusted: Verus/Z3/rustc; is_allowed's contract (decided in C02's unit); String==&str compares characters; &str "
                "extensionality; logging stubs. Not covered: the end-to-end relay (C01's contract).",
     design_ref="DESIGN.md section 3 C03",
+    assumptions=[],
+)
+
+PROPERTIES["C02"] = dict(
+    units=["authz"],
+    technique="Verus contracts on the extracted real functions (decision spec from the statement, loop invariants over HashMap/HashSet iteration)",
+    level_text="Deductive proof (Verus/Z3) for every rule set, caller and URL: is_allowed, extracted verbatim, returns exactly the declared decision.",
+    level_note="see evidence trusted_base",
+    design_ref="DESIGN.md section 3 C02",
     assumptions=[],
 )
 
